@@ -97,11 +97,11 @@ class DevConn:
             self.tr.feed_later(t, ch)
             t += gap
 
-    def close(self, delay: float = 0.0) -> None:
+    def close(self, delay: float = 0.0, reset: bool = False) -> None:
         def _do():
             if not self.closed:
                 self.closed = True
-                self.tr.peer_close()
+                self.tr.peer_close(ConnectionResetError(104, "Connection reset by peer") if reset else None)
         if delay:
             self.dev.loop.call_later(delay, _do)
         else:
@@ -132,6 +132,7 @@ class SimDevice:
         self._nonce_n = 0
         self._nonce_source = nonce_source
         self.reply_device_id: Optional[int] = None
+        self.silent_on_bad_token = False
         self.on_data: Optional[Callable] = None      # hook(dev, conn, frame) -> action or None
 
     # -- network side
@@ -254,6 +255,8 @@ class SimDevice:
         if kind == "body":
             conn.send_stream(rc.v3_handshake_reply(conn.resp_counter & 0xFFFF, action[1]), delay=self.latency)
             return
+        if not token_ok and self.silent_on_bad_token:
+            return               # some firmware simply ignores a handshake with an unknown token
         if kind == "error" or not token_ok:
             conn.send_stream(rc.v3_error_packet(), delay=delay)
             return
@@ -285,6 +288,9 @@ class SimDevice:
             return
         if kind == "close":
             conn.close()
+            return
+        if kind == "reset":
+            conn.close(reset=True)
             return
         if kind == "error":
             if self.version == 3:
